@@ -27,6 +27,15 @@ class Loop:
         self.inv, self.variant, self.ghost = inv, variant, ghost
 
 
+class Cut:
+    """an intermediate assertion (cut point) placed before the first top-level statement of the function whose
+    source text starts with `before`: every path reaching it must establish `inv`; execution then continues on a
+    single path that knows only the function's entry assumptions and `inv` (variables assigned so far are havocked)"""
+
+    def __init__(self, before, inv, name=None, havoc_real=()):
+        self.before, self.inv, self.name, self.havoc_real = before, inv, name or before, tuple(havoc_real)
+
+
 class Case:
     """normalised view of one contract case"""
 
@@ -94,8 +103,19 @@ class Case:
         f = this._get("ensures")
         return list(f(result, **a)) if f else []
 
+    def assume(this, F, result, a):
+        """hypotheses about the result at call sites: `assume` when the contract gives a relational form
+        (fresh existentials instead of div/mod), else the postconditions themselves"""
+        f = this._get("assume")
+        if f is None:
+            return this.ensures(result, a)
+        return list(f(F, result, **a))
+
     def loops(self):
         return self._get("loops", {}) or {}
+
+    def cuts(self):
+        return self._get("cuts", []) or []
 
     def options(self):
         return self._get("options", {}) or {}
